@@ -382,6 +382,83 @@ def parse_fn(src, name, occ=0, key=None):
     return params, ret, p.block()
 
 
+# ----------------------------------------------------------------------------- macro_rules! instantiation (textual)
+def _balanced(src, i, open_ch, close_ch):
+    """index just after the bracket group that starts at src[i] == open_ch"""
+    d = 0
+    for j in range(i, len(src)):
+        if src[j] == open_ch:
+            d += 1
+        elif src[j] == close_ch:
+            d -= 1
+            if d == 0:
+                return j + 1
+    raise SyntaxError("unbalanced")
+
+
+def macro_arms(src, name):
+    m = re.search(r"macro_rules!\s*" + re.escape(name) + r"\s*\{", src)
+    if not m:
+        raise KeyError("macro " + name)
+    end = _balanced(src, m.end() - 1, "{", "}")
+    body = src[m.end(): end - 1]
+    arms, i = [], 0
+    while True:
+        j = body.find("(", i)
+        if j < 0:
+            break
+        k = _balanced(body, j, "(", ")")
+        pat = body[j + 1: k - 1]
+        b0 = body.index("{", body.index("=>", k))
+        b1 = _balanced(body, b0, "{", "}")
+        arms.append((pat, body[b0 + 1: b1 - 1]))
+        i = b1
+    return arms, (m.start(), end)
+
+
+def macro_invocation(src, name, k, skip):
+    """argument text of the k-th invocation `name!( … )` outside the macro's own definition"""
+    n = 0
+    for m in re.finditer(r"\b" + re.escape(name) + r"\s*!\s*\(", src):
+        if skip[0] <= m.start() < skip[1]:
+            continue
+        if n == k:
+            e = _balanced(src, m.end() - 1, "(", ")")
+            return src[m.end(): e - 1]
+        n += 1
+    raise KeyError(f"invocation {k} of {name}")
+
+
+def macro_bind(pattern, args):
+    """bindings of the `$x:ident` metavariables of a flat pattern against the invocation's tokens"""
+    pt = re.findall(r"\$\w+:\w+|\w+|[^\s\w]", pattern)
+    at = re.findall(r"\w+|[^\s\w]", args)
+    b, j = {}, 0
+    for t in pt:
+        if t.startswith("$"):
+            b[t.split(":")[0]] = at[j]
+        elif at[j] != t:
+            raise SyntaxError(f"macro pattern mismatch at {t!r} / {at[j]!r}")
+        j += 1
+    return b
+
+
+def macro_expand(src, name, arm, inv, extra):
+    """the body of arm `arm` of macro `name`, metavariables replaced by the bindings of invocation `inv` (matched against the
+    first arm's flat pattern) plus `extra`; repetition markers `$( … )*` are dropped (one instance)"""
+    src = re.sub(r"//[^\n]*", "", src)
+    arms, span = macro_arms(src, name)
+    b = macro_bind(arms[0][0], macro_invocation(src, name, inv, span))
+    b.update(extra or {})
+    body = arms[arm][1]
+    body = body.replace("$(", "").replace(")*", "")
+    for k in sorted(b, key=len, reverse=True):
+        body = re.sub(re.escape(k) + r"\b", b[k], body)
+    if "$" in body:
+        raise SyntaxError("unbound metavariable in macro body: " + body[body.index("$"): body.index("$") + 20])
+    return body
+
+
 # ----------------------------------------------------------------------------- back end
 MUT_PARAMS = {"u256_idiv_u128_special": ["xh", "xl"]}     # fn name -> names of its `&mut` parameters (their final values are returned, before the declared result)
 LOOP_FUEL = {}      # (fn name, loop index) -> fuel constant of the generated loop function
@@ -1360,7 +1437,7 @@ class Emit:
 
 # ----------------------------------------------------------------------------- driver
 GROUP_IMPORTS = {"KPow": ["Fpdec.Gen.Consts"], "KDivRounded": ["Fpdec.Gen.KRound", "Fpdec.Gen.KPow", "Fpdec.Model.Core"],
-                 "KDecDiv": ["Fpdec.Gen.KDivRounded"], "KDecMul": ["Fpdec.Gen.KDivRounded", "Fpdec.Model.Decimal"], "KNorm": [], "KDecUnops": ["Fpdec.Gen.KUnops", "Fpdec.Gen.KPow", "Fpdec.Model.Decimal"], "KDecOps": ["Fpdec.Gen.KDecDiv", "Fpdec.Gen.KDecMul", "Fpdec.Gen.KNorm", "Fpdec.Gen.Consts", "Fpdec.Model.Decimal"],
+                 "KDecDiv": ["Fpdec.Gen.KDivRounded"], "KDecMul": ["Fpdec.Gen.KDivRounded", "Fpdec.Model.Decimal"], "KNorm": [], "KAddSub": ["Fpdec.Gen.KPow", "Fpdec.Model.Decimal"], "KDecUnops": ["Fpdec.Gen.KUnops", "Fpdec.Gen.KPow", "Fpdec.Model.Decimal"], "KDecOps": ["Fpdec.Gen.KDecDiv", "Fpdec.Gen.KDecMul", "Fpdec.Gen.KNorm", "Fpdec.Gen.Consts", "Fpdec.Model.Decimal"],
                  "KDecRound": ["Fpdec.Gen.KDivRounded", "Fpdec.Model.Decimal"],
                  "KFloat": ["Fpdec.Gen.KNorm", "Fpdec.Gen.Consts", "Fpdec.Model.Core", "Fpdec.Model.Decimal"], "KRem": ["Fpdec.Gen.KPow"], "KDecRem": ["Fpdec.Gen.KRem", "Fpdec.Model.Decimal"],
                  "KWideDiv": ["Fpdec.Gen.KWide", "Fpdec.Gen.KPow", "Fpdec.Gen.Consts", "Fpdec.Model.Core"]}
@@ -1382,6 +1459,21 @@ KERNELS = [
     ("KDecDiv", "src/binops/div_rounded.rs", "checked_div_rounded", None),
     ("KDecMul", "src/binops/mul_rounded.rs", "checked_mul_rounded", None),
     ("KNorm", "src/lib.rs", "normalize", None),
+    ("KAddSub", "src/binops/add_sub.rs", "coeff_or_panic", None),
+    ("KAddSub", "src/binops/add_sub.rs", "$method", "Decimal", {"as": "decimal_add", "macro": ("impl_add_sub_decimal", 0, 0, None)}),
+    ("KAddSub", "src/binops/add_sub.rs", "$method", "Decimal", {"as": "decimal_sub", "macro": ("impl_add_sub_decimal", 0, 1, None)}),
+    ("KAddSub", "src/binops/add_sub.rs", "$method", "Decimal",
+     {"as": "decimal_add_int", "macro": ("impl_add_sub_decimal_and_int", 1, 0, {"$t": "i64"}), "occ": 0, "ret": "Decimal"}),
+    ("KAddSub", "src/binops/add_sub.rs", "$method", "i64",
+     {"as": "int_add_decimal", "macro": ("impl_add_sub_decimal_and_int", 1, 0, {"$t": "i64"}), "occ": 1, "ret": "Decimal"}),
+    ("KAddSub", "src/binops/add_sub.rs", "$method", "Decimal",
+     {"as": "decimal_sub_int", "macro": ("impl_add_sub_decimal_and_int", 1, 1, {"$t": "i64"}), "occ": 0, "ret": "Decimal"}),
+    ("KAddSub", "src/binops/add_sub.rs", "$method", "i64",
+     {"as": "int_sub_decimal", "macro": ("impl_add_sub_decimal_and_int", 1, 1, {"$t": "i64"}), "occ": 1, "ret": "Decimal"}),
+    ("KAddSub", "src/binops/checked_add_sub.rs", "$method", "Decimal",
+     {"as": "decimal_checked_add", "macro": ("impl_checked_add_sub_decimal", 0, 0, None), "ret": ("Option", "Decimal")}),
+    ("KAddSub", "src/binops/checked_add_sub.rs", "$method", "Decimal",
+     {"as": "decimal_checked_sub", "macro": ("impl_checked_add_sub_decimal", 0, 1, None), "ret": ("Option", "Decimal")}),
     ("KDecUnops", "src/unops.rs", "neg", "Decimal", {"as": "decimal_neg", "occ": 0}),
     ("KDecUnops", "src/unops.rs", "neg", "Decimal", {"as": "decimal_ref_neg", "occ": 1, "ret": "Decimal"}),
     ("KDecUnops", "src/unops.rs", "abs", "Decimal", {"as": "decimal_abs"}),
@@ -1472,7 +1564,15 @@ def translate(repo):
         try:
             if f not in srcs:
                 srcs[f] = (repo / f).read_text()
-            params, ret, body = parse_fn(srcs[f], fname, opts.get("occ", 0), name)
+            text = srcs[f]
+            if "macro" in opts:
+                mname, marm, minv, mextra = opts["macro"]
+                text = macro_expand(text, mname, marm, minv, mextra)
+                fname = [v for k_, v in macro_bind(macro_arms(re.sub(r"//[^\n]*", "", srcs[f]), mname)[0][0][0],
+                                                   macro_invocation(re.sub(r"//[^\n]*", "", srcs[f]), mname, minv,
+                                                                    macro_arms(re.sub(r"//[^\n]*", "", srcs[f]), mname)[1])).items()
+                         if k_ == fname] [0] if fname.startswith("$") else fname
+            params, ret, body = parse_fn(text, fname, opts.get("occ", 0), name)
             params = [(n, sub(t, selfty)) for n, t in params]
             ret = opts["ret"] if "ret" in opts else sub(ret, selfty)
             parsed[name] = (params, ret, body, selfty)
